@@ -60,8 +60,21 @@ StarCorner == << << <<4, 3, 0>>, <<-2, 5, 0>>, <<-5, 0, 0>>, <<-1, -5, 0>>, <<5,
 Star(n) == { << 0, i, n + i, (i % n) + 1 >> : i \in 1..n }
 StarCoords(n) == [v \in 0..(2 * n) |-> IF v = 0 THEN <<0, 0, 0>> ELSE IF v <= n THEN StarSpoke[n - 4][v] ELSE StarCorner[n - 4][v - n]]
 
+\* hexring: eight hexahedra around one axis (two layers of four), each a copy of ONE block turned about its own edge 4-7, so
+\* that the axis is local edge 4-7 in every block that touches it (assemblies made by rotating a block, as rings are)
+RECURSIVE RotY(_, _)
+RotY(k, p) == IF k = 0 THEN p ELSE RotY(k - 1, << p[3], p[2], -p[1] >>)
+RingYs == << 0, 1, 3 >>
+RingLocal(c, l) == LET q == XYZ(c - 1) IN << q[1], RingYs[l + q[2]], q[3] - 1 >>
+RingYIdx(y) == CHOOSE i \in 0..2 : RingYs[i + 1] = y
+RingId(p) == (p[1] + 1) + 3 * (p[3] + 1) + 9 * RingYIdx(p[2])
+HexRing == { [c \in 1..8 |-> RingId(RotY(k, RingLocal(c, l)))] : k \in 0..3, l \in 1..2 }
+HexRingCoords == [v \in 0..26 |-> << 2 * ((v % 3) - 1), 2 * RingYs[(v \div 9) + 1], 2 * (((v \div 3) % 3) - 1) >>]
+ASSUME \A cell \in HexRing : \E l \in 0..2 : \E l2 \in 0..2 : {cell[5], cell[8]} = {RingId(<<0, RingYs[l + 1], 0>>), RingId(<<0, RingYs[l2 + 1], 0>>)}
+
 Topology(t) ==
-    CASE t.kind = "star" -> [dim |-> 2, cells |-> Star(t.n), coords |-> StarCoords(t.n)]
+    CASE t.kind = "hexring" -> [dim |-> 3, cells |-> HexRing, coords |-> HexRingCoords]
+      [] t.kind = "star" -> [dim |-> 2, cells |-> Star(t.n), coords |-> StarCoords(t.n)]
       [] t.kind = "lquad" -> [dim |-> 2, cells |-> Dense(LQuadRaw(t.n, t.m, t.a, t.b)),
                               coords |-> DenseCoords(LQuadRaw(t.n, t.m, t.a, t.b), LQuadCoords(t.n, t.m))]
       [] t.kind = "lhex" -> [dim |-> 3, cells |-> Dense(LHexRaw(t.n, t.m, t.k, t.a, t.b)),
@@ -88,6 +101,7 @@ CONSTANTS MaxQ, MaxH
 Topos == { [kind |-> "quadgrid", n |-> n, m |-> m, k |-> 0, a |-> 0, b |-> 0] : n \in 1..MaxQ, m \in 1..MaxQ }
          \cup { [kind |-> "ogrid", n |-> 0, m |-> 0, k |-> 0, a |-> 0, b |-> 0], [kind |-> "ogrid2", n |-> 0, m |-> 0, k |-> 0, a |-> 0, b |-> 0] }
          \cup { [kind |-> "hexgrid", n |-> n, m |-> m, k |-> k, a |-> 0, b |-> 0] : n \in 1..MaxH, m \in 1..MaxH, k \in 1..MaxH }
+         \cup { [kind |-> "hexring", n |-> 0, m |-> 0, k |-> 0, a |-> 0, b |-> 0] }
          \cup { [kind |-> "star", n |-> n, m |-> 0, k |-> 0, a |-> 0, b |-> 0] : n \in {5, 6} }
          \cup { [kind |-> "lquad", n |-> n, m |-> m, k |-> 0, a |-> a, b |-> b] : n \in 3..MaxQ, m \in 3..MaxQ, a \in 1..(MaxQ - 1), b \in 1..(MaxQ - 1) }
          \cup { [kind |-> "lhex", n |-> n, m |-> m, k |-> k, a |-> a, b |-> b] : n \in 2..(MaxH + 1), m \in 2..(MaxH + 1), k \in 1..MaxH, a \in 1..MaxH, b \in 1..MaxH }
@@ -101,6 +115,8 @@ ValenceOK == LET T == Topology(x) IN
              /\ (x.kind = "lquad" \/ (x.kind = "lhex" /\ x.k >= 2)) =>
                   LET bs == BoundarySides(T) IN
                   \E v \in UNION bs : \E c \in T.cells : v \in Range(c) /\ \A sd \in SidesOf(T.dim, c) : v \in sd => sd \notin bs
+             \* the one interior point of the ring sits on the axis and has six neighbours, two of them along the axis
+             /\ x.kind = "hexring" => (Points(T) \ Boundary(T) = {13} /\ Cardinality(Neigh(T, 13)) = 6 /\ {4, 22} \subseteq Neigh(T, 13))
              \* the centre of a star has more neighbours than a quadrilateral has sides
              /\ x.kind = "star" => Cardinality(Neigh(T, 0)) = x.n /\ 0 \notin Boundary(T)
              /\ x.kind \in {"quadgrid", "hexgrid"} => \A v \in Points(T) \ Boundary(T) : Cardinality(Neigh(T, v)) = 2 * T.dim
